@@ -1,6 +1,7 @@
 package sharding
 
 import (
+	"strconv"
 	"context"
 	"errors"
 	"fmt"
@@ -15,6 +16,7 @@ import (
 
 var vrfEntries = map[string]func(){
 	"VrfC13Ingest": VrfC13Ingest,
+	"VrfC13MakeDAG": VrfC13MakeDAG,
 	"VrfC13Flush":  VrfC13Flush,
 }
 
@@ -214,4 +216,41 @@ func VrfC13Flush() {
 		vrf_assert(p.MaxDepth >= wantDepth, "C13.flush.depth-covers-links")
 	}
 	vrf_reach("C13.flush.end")
+}
+
+// VrfC13MakeDAG: the shard DAG (direct below MaxLinks links, indirect above)
+// references every link it was given exactly once - at the boundaries of the
+// leaf size and for a partial last leaf.
+func VrfC13MakeDAG() {
+	n := []int{1, MaxLinks, MaxLinks + 1, 2 * MaxLinks, 2*MaxLinks + 1}[vrf_choice("links", 5)]
+	vrf_note_int("links", n)
+	obj := make(map[string]cid.Cid, n)
+	for i := 0; i < n; i++ {
+		obj[strconv.Itoa(i)] = vrfBlockCid(i % 3)
+	}
+	nodes, err := makeDAG(context.Background(), obj)
+	vrf_assert(err == nil && len(nodes) >= 1, "C13.makedag.ok")
+	if err != nil || len(nodes) == 0 {
+		return
+	}
+	if n <= MaxLinks {
+		vrf_assert(len(nodes) == 1 && len(nodes[0].Links()) == n, "C13.makedag.direct-covers-every-link")
+	} else {
+		leaves := nodes[1:]
+		covered := 0
+		for _, l := range leaves {
+			vrf_assert(len(l.Links()) <= MaxLinks, "C13.makedag.leaf-within-limit")
+			covered += len(l.Links())
+		}
+		vrf_assert(covered == n, "C13.makedag.leaves-cover-every-link")
+		// the root references every non-empty leaf
+		nonEmpty := 0
+		for _, l := range leaves {
+			if len(l.Links()) > 0 {
+				nonEmpty++
+			}
+		}
+		vrf_assert(len(nodes[0].Links()) >= nonEmpty && len(nodes[0].Links()) == len(leaves), "C13.makedag.root-references-leaves")
+	}
+	vrf_reach("C13.makedag.end")
 }
